@@ -312,6 +312,53 @@ theorem p3_layout (iw ih im : Item) (w h m : Nat) (sw : iw.Spells u32Max w) (sh 
   simp only [parsePnm, hh, c1, if_false, pixelData, ht]
   exact finish_decode w h px px hwh hl (by rw [List.take_of_length_le (by omega)]) (by omega)
 
+/-- The last field of a text file may end at the end of the input, without a delimiter. -/
+def Item.renderEof (it : Item) : List UInt8 := it.gap ++ it.tok
+
+theorem parseNum_renderEof (it : Item) (M n : Nat) (h : it.Spells M n) :
+    parseNum M it.renderEof = (.ok n, []) := by
+  obtain ⟨h1, h2, h3, _, h5⟩ := h
+  rw [Item.renderEof, parseNum_item_eof M h1 it.tok h2 h3, h5]
+
+/-- Text pixmap whose last sample ends at EOF. -/
+theorem textPixmap_layout_eof (ts : List (Item × Item × Item)) (px : List Pixel)
+    (h : List.Forall₂ TripleSpells ts px) (t : Item × Item × Item) (p : Pixel) (hp : TripleSpells t p) :
+    textPixmap (px.length + 1) (ts.flatMap renderTriple ++ (t.1.render ++ t.2.1.render ++ t.2.2.renderEof)) =
+      .ok (px ++ [p]) := by
+  induction h with
+  | nil =>
+    obtain ⟨s1, s2, s3⟩ := hp
+    obtain ⟨r, g, b⟩ := p
+    have n1 := parseNum_render t.1 u8Max _ s1 (t.2.1.render ++ t.2.2.renderEof)
+    have n2 := parseNum_render t.2.1 u8Max _ s2 t.2.2.renderEof
+    have n3 := parseNum_renderEof t.2.2 u8Max _ s3
+    simp only [List.append_assoc] at n1
+    simp [textPixmap, n1, n2, n3]
+  | @cons t' p' ts' px' hp' _ ih =>
+    obtain ⟨s1, s2, s3⟩ := hp'
+    obtain ⟨r, g, b⟩ := p'
+    have n1 := parseNum_render t'.1 u8Max _ s1 (t'.2.1.render ++ t'.2.2.render ++ (ts'.flatMap renderTriple ++ (t.1.render ++ t.2.1.render ++ t.2.2.renderEof)))
+    have n2 := parseNum_render t'.2.1 u8Max _ s2 (t'.2.2.render ++ (ts'.flatMap renderTriple ++ (t.1.render ++ t.2.1.render ++ t.2.2.renderEof)))
+    have n3 := parseNum_render t'.2.2 u8Max _ s3 (ts'.flatMap renderTriple ++ (t.1.render ++ t.2.1.render ++ t.2.2.renderEof))
+    simp only [List.append_assoc] at n1 n2 n3 ih
+    simp only [List.flatMap_cons, renderTriple, List.append_assoc, List.length_cons, textPixmap, n1, n2, n3, ih]
+    simp
+
+/-- **P3 whose last sample ends at EOF** decodes to the same image as with a trailing delimiter. -/
+theorem p3_layout_eof (iw ih im : Item) (w h m : Nat) (sw : iw.Spells u32Max w) (sh : ih.Spells u32Max h)
+    (sm : im.Spells u16Max m) (ts : List (Item × Item × Item)) (px : List Pixel)
+    (hs : List.Forall₂ TripleSpells ts px) (t : Item × Item × Item) (p : Pixel) (hp : TripleSpells t p)
+    (hl : px.length + 1 = w * h) (hwh : w * h ≤ u32Max) :
+    parsePnm (80 :: 51 :: (iw.render ++ ih.render ++ im.render ++
+        (ts.flatMap renderTriple ++ (t.1.render ++ t.2.1.render ++ t.2.2.renderEof)))) = decoded w h (px ++ [p]) := by
+  have hh := header_layout 80 51 .p3 (by decide) (by decide) iw ih im w h m sw sh sm
+    (ts.flatMap renderTriple ++ (t.1.render ++ t.2.1.render ++ t.2.2.renderEof))
+  have c1 : ¬ w * h > u32Max := by omega
+  have ht := textPixmap_layout_eof ts px hs t p hp
+  rw [hl] at ht
+  simp only [parsePnm, hh, c1, if_false, pixelData, ht]
+  exact finish_decode w h _ (px ++ [p]) hwh (by simp; omega) (by rw [List.take_of_length_le (by simp; omega)]) (by simp; omega)
+
 /-- **text_bin_equiv (P3 ≡ P6).** The text and the binary encoding of the same pixels decode to the
 same image, whatever whitespace, whitespace-preceded comments and number spellings separate the
 fields of either file (the two files may use different layouts). -/
